@@ -27,7 +27,7 @@ RULE = (
     "untouched records identical. key = shape of the remapping (per pair: key class -> value class, plus chain/swap/self "
     "markers) x outcome; non-trivial = some key is also a value, or a key or value is a synonym."
 )
-ASSUMPTIONS = ["default delimiter (CURIE remapping is delimiter-free)", "two pairs onto one unknown new prefix: only one of them can win; the oracle does not demand both (DESIGN 7.3)"]
+ASSUMPTIONS = ["CURIE remapping is delimiter-free: delimiters ':', '/', '::', '_' and prefixes containing another converter's delimiter are drawn", "two pairs onto one unknown new prefix: only one of them can win; the oracle does not demand both (DESIGN 7.3)"]
 
 ALPHA = list("abcdefg") + ["A", "B"]
 
@@ -88,16 +88,18 @@ def run_case(ctx, g, rng):
     if g * SMALL_CHUNK < len(_world(ctx.tier)):
         small_world_case(ctx, g)
     n = rng.randint(1, 4)
-    names = rng.sample(ALPHA, k=len(ALPHA))
+    d = rng.choice([":", ":", ":", "/", "::", "_"])
+    alpha = ALPHA + (["obo:go", "x:"] if d != ":" else ["a.b", "a/b"])
+    names = rng.sample(alpha, k=len(alpha))
     recs = []
     for i in range(n):
         p = names.pop()
         ps = tuple(names.pop() for _ in range(rng.choice([0, 0, 1, 1, 2])) if len(names) > 2)
         us = tuple(f"http://s{i}{j}/" for j in range(rng.choice([0, 0, 1])))
         recs.append(spec.Rec(p, f"http://u{i}/", ps, us, None))
-    sp = spec.SpecConverter(recs, ":")
+    sp = spec.SpecConverter(recs, d)
     known = [p for r in recs for p in spec.all_p(r)]
-    unknown = [x for x in ALPHA + ["zz", "yy"] if x not in known]
+    unknown = [x for x in alpha + ["zz", "yy"] if x not in known]
     m = {}
     style = rng.choice(["random", "random", "chain", "swap", "self", "partial-chain", "onto-synonym"])
     if style == "random":
@@ -127,7 +129,9 @@ def run_case(ctx, g, rng):
             m[r.prefix] = rng.choice(known)
         if rng.random() < 0.5:
             m[rng.choice(known)] = rng.choice(unknown)
-    c = api.Converter([gen.mk_record(api, r) for r in recs])
+    # the converter may have a past (registered record by record, grown through merges) and any delimiter
+    c, how = gen.build(api, recs, d, rng)
+    S.counters[f"wl:build:{how}"] += 1
     o = call(curies.remap_curie_prefixes, c, dict(m))
 
     def cls(x):
@@ -146,7 +150,7 @@ def run_case(ctx, g, rng):
         for r in recs:
             call(res.compress, r.uri_prefix + "1")
             for p in spec.all_p(r):
-                call(res.expand, p + ":1")
+                call(res.expand, p + d + "1")
     if g % 499 == 0:
         probe.sample({"records": [spec.rec_dict(r) for r in recs], "remapping": m,
                       "result": [spec.rec_dict(r) for r in spec.snapshot(o[1])] if o[0] == "ret" else outcome,
